@@ -12,13 +12,15 @@ def run(ctx):
         dict(name="double/asan-dbg", src=SRC, flavour="asan-dbg", defines=["SH_DOUBLE"]),
         dict(name="float/asan-rel", src=SRC, flavour="asan-rel", defines=["SH_FLOAT"], primary=False),
         dict(name="double/asan-rel", src=SRC, flavour="asan-rel", defines=["SH_DOUBLE"], primary=False),
+        # Morton beneath the interpolator takes its pdep path only in a BMI2 build
+        dict(name="double/asan-dbg+bmi2", src=SRC, flavour="asan-dbg+bmi2", defines=["SH_DOUBLE"], primary=False),
     ], timeout=3600)
     return ctx.finish(
         rule=("nearest_neighbour<identity<idxN>, realN> (returns the chosen lattice point) for N 1..4, real in {float,double}, idx in "
               "{size_t,int,unsigned}: every half-integer h+1/2 for h < 2^12 (2^16 thorough) and h = 2^k-1 up to the mantissa width, each with "
               "its two neighbouring representable values; integers; for double also 2^24, 2^25, 2^32, 2^40 +-3 (+1/2, +-ulp): values a float "
               "cannot hold; uniform random in (-0.5, 2^e-0.5).  Distance |p_k-x_k| <= 1/2 decided exactly in binary128.  Array-backed "
-              "nn<strided<array>> N 1..3 with a unique id per cell: the returned id is decoded to its cell and the same test applied.  Probe-backed "
+              "nn<strided<array>> N 1..3 and nn<morton<array>> (both index paths, plain and -mbmi2 builds; one elongated field with axis indices beyond 16/128/256 per instantiation) N 2..4 with a unique id per cell: the returned id is decoded to its cell and the same test applied; every identity-backed lookup repeated through the variadic at(c0, c1, ...) with arguments of mixed exact types.  Probe-backed "
               "nn<strided<probe<VALUE>>> for value types float/double/unsigned char/short, extents up to 2^22 (float coordinates) / 2^40 (double), "
               "coordinates around 2^8, 2^16 and 2^24: the flat index READ is decoded and tested the same way (the chosen cell must not depend on the value type). "
               "non-trivial: some component within 2 ulp of a half-integer or not representable in float; distinct = hash of (instantiation, x)"),
